@@ -479,6 +479,20 @@ def h_sampling(k):
     return h
 
 
+def h_antiwindup_disabled(I):
+    """a disabled anti-windup limiter (enable=False) never flags, never pegs: state value and derivative are left alone"""
+    from andes.core import discrete as D
+    x = var(I, ['x0'], with_e=True, a0=3)
+    v0, e0 = x.v.copy(), x.e.copy()
+    lo, up = par(I, ['lo0'], 'lower'), par(I, ['up0'], 'upper')
+    L = D.AntiWindup(x, lo, up, enable=False)
+    L.list2array(1)
+    L.check_var()
+    L.check_eq(niter=0)
+    return [('a disabled anti-windup limiter keeps zi = 1, zl = zu = 0', AND(EQ(L.zi[0], 1, tol=0.0), EQ(L.zl[0], 0, tol=0.0), EQ(L.zu[0], 0, tol=0.0))),
+            ('... and touches neither the state nor its derivative', AND(EQ(x.v[0], v0[0], tol=0.0), EQ(x.e[0], e0[0], tol=0.0), len(L.x_set) == 0))]
+
+
 def h_antiwindup_registry(I):
     """real System.store_adder_setter on two models that each own an anti-windup limiter of the SAME name (names are unique only
     within a model): the list the integrator uses to peg states holds every limiter of every model with devices, once"""
@@ -508,6 +522,8 @@ def region_of(values, cname):
 
 def job(spec):
     name, kind, args = spec
+    if kind == 'awoff':
+        return H.run(name, h_antiwindup_disabled, region=lambda v, c: c)
     if kind == 'awreg':
         return H.run(name, h_antiwindup_registry, region=lambda v, c: c)
     fn = {'limiter': h_limiter, 'adjust': h_limiter_adjust, 'aw': h_antiwindup, 'rate': h_ratelimiter,
@@ -556,6 +572,7 @@ def specs(thorough):
         S.append((f'Average(step,delay={d}).check_var(calls={kk})', 'avg', (d, kk)))
     S.append((f'Sampling.check_var(calls={kk + 1})', 'sampling', (kk + 1,)))
     S.append(('System.store_adder_setter anti-windup registry', 'awreg', ()))
+    S.append(('AntiWindup(enable=False).check_eq', 'awoff', ()))
     return S
 
 
